@@ -6,6 +6,8 @@
 #include "terminalpp/detail/overloaded.hpp"
 
 #include <algorithm>
+#include <charconv>
+#include <limits>
 #include <utility>
 #include <cassert>
 
@@ -14,6 +16,24 @@ using namespace terminalpp::literals;  // NOLINT
 namespace terminalpp::detail {
 
 namespace {
+
+// Converts a decimal sequence argument to an int.  Arguments too long to fit
+// saturate at the largest int rather than wrapping around to an unrelated
+// small value (which would, for instance, turn "CSI 4294967297 ~" into Home).
+// An empty argument yields 0.
+int argument_to_int(byte_storage const &argument)
+{
+    int value = 0;
+    auto const *const first = reinterpret_cast<char const *>(argument.data());
+
+    if (std::from_chars(first, first + argument.size(), value).ec
+        == std::errc::result_out_of_range)
+    {
+        return std::numeric_limits<int>::max();
+    }
+
+    return value;
+}
 
 vk_modifier convert_modifier_argument(byte_storage const &modifier)
 {
@@ -57,7 +77,7 @@ vk_modifier convert_modifier_argument(byte_storage const &modifier)
   // clang-format on
     };
 
-    auto const value = atoi(reinterpret_cast<char const *>(modifier.c_str()));
+    auto const value = argument_to_int(modifier);
     if (auto const *mapping = std::ranges::find(
             modifier_mappings,
             value,
@@ -101,8 +121,8 @@ token convert_control_sequence(control_sequence const &seq)
         auto const repeat_count_arg =
             seq.arguments.empty() ? "1"_tb : seq.arguments[0];
 
-        auto const repeat_count = std::max(
-            atoi(reinterpret_cast<char const *>(repeat_count_arg.c_str())), 1);
+        auto const repeat_count =
+            std::max(argument_to_int(repeat_count_arg), 1);
 
         vk_modifier const modifier =
             (seq.arguments.size() > 1
@@ -190,8 +210,7 @@ token convert_keypad_sequence(control_sequence const &seq)
         return seq;
     }
 
-    auto const argument =
-        atoi(reinterpret_cast<char const *>(seq.arguments[0].c_str()));
+    auto const argument = argument_to_int(seq.arguments[0]);
 
     if (auto const *keypad_command = std::ranges::find(
             keypad_commands,
